@@ -44,6 +44,11 @@ def converse_cases(tier):
     for A, B, C, D in itertools.product(pool, repeat=4):
         for row in SC.en_converse(A, B, C, D):
             yield row
+    from mc.props.c06 import DEEP_EN
+    for B in [K.P(c) for c in DEEP_EN]:
+        for A, C, D in itertools.product(pool[:2], repeat=3):
+            for row in SC.en_converse(A, B, C, D):
+                yield row
 
 
 CONST = [(',', 'S[ng]\\NP', 'lp', '<*>', '(S\\NP)\\(S\\NP)'), (',', 'S[pss]\\NP', 'lp', '<*>', '(S\\NP)\\(S\\NP)'),
